@@ -9,7 +9,7 @@
 From Coq Require Import Reals ZArith List.
 From Flocq Require Import Core.Raux.
 From QV Require Import Rt.Prelude Rt.Amount Rt.Quantity Gen.Prefixes Gen.Kernels Amount.DecModel Amount.Dec Amount.DecAcc
-  Proofs.Laws Proofs.Kernel Proofs.AccDec Proofs.AccDecExamples.
+  Proofs.Laws Proofs.Kernel Proofs.C09 Proofs.Derived Proofs.AccDec Proofs.AccDecExamples.
 From QV Require Amount.Laws.
 Local Open Scope R_scope.
 
@@ -117,6 +117,34 @@ Theorem DEC_C02_order : forall (S : QBase DEC) (x y : Qt S),
     (grid18 (dmag S x) -> grid18 (dmag S y) -> c = Rcompare (dmag S x) (dmag S y)).
 Proof. exact dec_cmp_separated. Qed.
 
+(** C04 / C05 (decimal): derived product / quotient through the natural unit ... *)
+Theorem DEC_C04_natural_unit : forall (op : dec -> dec -> res dec) (rop : R -> R -> R) (okr : dec -> Prop), dop_rel op rop okr ->
+  forall (R0 : QFull DEC), QLaws R0 -> (forall w, In w (u_iter R0) -> dfit (u_scale R0 w)) ->
+  forall su sv a b : dec, Amount.Laws.dec_ok su -> Amount.Laws.dec_ok sv -> Amount.Laws.dec_ok a -> Amount.Laws.dec_ok b ->
+  forall (z : Qt R0) (sc : dec) (w : nat), op su sv = Ok sc -> (Z.abs (d_coeff sc) <= i128_max)%Z ->
+  HasRefUnit_unit_from_scale R0 sc = Some w ->
+  @derived_nf DEC op R0 su sv a b = Ok z ->
+  q_unit R0 z = w /\ In w (u_iter R0) /\
+  Rabs (dmag_o R0 z - rop (dval a) (dval b) * rop (dval su) (dval sv)) <= half_ulp18 * (Rabs (dval sc) + Rabs (rop (dval a) (dval b))) /\
+  (grid18 (rop (dval a) (dval b)) -> grid18 (rop (dval su) (dval sv)) -> dmag_o R0 z = rop (dval a) (dval b) * rop (dval su) (dval sv)).
+Proof. exact dec_derived_natural. Qed.
+
+(** ... and through _fit when no unit has the combined scale *)
+Theorem DEC_C04_fit_path : forall (op : dec -> dec -> res dec) (rop : R -> R -> R) (okr : dec -> Prop), dop_rel op rop okr ->
+  forall (R0 : QFull DEC), QLaws R0 -> (forall m, q_fit R0 m = HasRefUnit__fit R0 m) -> (forall w, In w (u_iter R0) -> dfit (u_scale R0 w)) ->
+  forall su sv a b : dec, Amount.Laws.dec_ok su -> Amount.Laws.dec_ok sv -> Amount.Laws.dec_ok a -> Amount.Laws.dec_ok b ->
+  forall (z : Qt R0) (sc : dec), op su sv = Ok sc -> HasRefUnit_unit_from_scale R0 sc = None ->
+  @derived_nf DEC op R0 su sv a b = Ok z ->
+  In (q_unit R0 z) (u_iter R0) /\
+  exists m, fit_unit R0 m = Some (q_unit R0 z) /\
+    Rabs (dval m - rop (dval a) (dval b) * rop (dval su) (dval sv)) <= half_ulp18 * (Rabs (dval sc) + Rabs (rop (dval a) (dval b)) + 1) /\
+    Rabs (dmag_o R0 z - dval m) <= half_ulp18 * Rabs (dval (u_scale R0 (q_unit R0 z))).
+Proof. exact dec_derived_fit. Qed.
+
+(** the two instances: * and / of the decimal type *)
+Theorem DEC_C04_operations : dop_rel dec_mul Rmult (fun _ => True) /\ dop_rel dec_div Rdiv (fun y => dval y <> 0).
+Proof. exact (conj mul_dop_rel div_dop_rel). Qed.
+
 Print Assumptions DEC_operations.
 Print Assumptions DEC_comparison.
 Print Assumptions DEC_totality.
@@ -128,3 +156,6 @@ Print Assumptions DEC_C03_add.
 Print Assumptions DEC_C03_sub.
 Print Assumptions DEC_C03_div.
 Print Assumptions DEC_C02_order.
+Print Assumptions DEC_C04_natural_unit.
+Print Assumptions DEC_C04_fit_path.
+Print Assumptions DEC_C04_operations.
